@@ -138,6 +138,10 @@ def r3_no_silent_drop(ctx):
         return
     ov = [(bi, t) for bi, t in f.calls() if (callee_of(t) or {}).get("name") == "overlaps_with" and not f.is_cleanup(bi)]
     if not ov:
+        done = _search_form(ctx, p, f, ins)
+        if done:
+            return
+    if not ov:
         ctx.ob("R3", "insert-behind-overlap-loop", False,
                "prepare_assertions inserts into the sorted set without an overlaps_with test: an assertion comparing Equal to an earlier one would vanish", f, ins[0][1]["sp"]["at"])
         return
@@ -208,6 +212,69 @@ def r3_no_silent_drop(ctx):
                 "" if reach else "the insertion is reachable without entering the overlap loop",
                 fwhy) if x)
     ctx.ob("R3", "insert-behind-overlap-loop", ok, how, f, it["sp"]["at"])
+
+
+def _search_form(ctx, p, f, ins):
+    """`if let Some(a) = set.iter().find(|a| a.column == new.column && a.overlaps_with(new)) { panic!(..) }` (also
+    `any` / `position`): the search runs over the set that receives the insertion, its predicate is true whenever
+    the columns are equal and overlaps_with answers true, and a hit diverges before the insertion."""
+    from .c25 import _bool_fn
+    ibi, it = ins[0]
+    set_roots = f._mutref_origins(op_local(it["a"][0]), f._defs or (f.defs(0) and f._defs), set())
+    set_roots |= f.backward_slice([op_local(it["a"][0])], at=(ibi, f.INF))["locals"]
+    new_roots = arg_slice(f, it, 1)["locals"]
+    for bi, t in f.calls():
+        c = callee_of(t) or {}
+        if f.is_cleanup(bi) or c.get("name") not in ("find", "any", "position") or c.get("krate") != "core" or len(t["a"]) != 2:
+            continue
+        recv = arg_slice(f, t, 0)
+        names = _names(f, recv)
+        if not (recv["locals"] & set_roots) or names & {"filter", "take_while", "skip_while", "take", "skip", "step_by", "rev"} - {"rev"}:
+            continue
+        cl = arg_slice(f, t, 1)
+        cfs = [p.funcs[k] for k in cl["closures"] if k in p.funcs]
+        pred_ok, col_note = False, ""
+        for cf in cfs:
+            ovc = [(b2, t2) for b2, t2 in cf.calls() if (callee_of(t2) or {}).get("name") == "overlaps_with" and not cf.is_cleanup(b2)]
+            if len(ovc) != 1:
+                continue
+            b2, t2 = ovc[0]
+            a0, a1 = arg_slice(cf, t2, 0), arg_slice(cf, t2, 1)
+            elem_and_new = (2 in a0["args"] and any(pl[0] == 1 for pl in a1["places"])) or (2 in a1["args"] and any(pl[0] == 1 for pl in a0["places"]))
+            sites = [{"bb": b2, "local": t2["dest"][0]}]
+            cols = []
+            for s in cmp_sites(cf):
+                fa = {x for x in slice_field_bases(cf.slice_of_operand(s["a"], at=(s["bb"], cf.INF))) if x}
+                fb = {x for x in slice_field_bases(cf.slice_of_operand(s["b"], at=(s["bb"], cf.INF))) if x}
+                if s["op"] == "Eq" and "column" in (fa | fb) and not ((fa | fb) - {"column", "0"}):
+                    cols.append(s)
+                else:
+                    cols = None
+                    break
+            if cols is None or len(cols) > 1 or not elem_and_new:
+                continue
+            table = _bool_fn(cf, sites + list(cols))
+            want = tuple([True] * (1 + len(cols)))
+            if table.get(want) is True:
+                pred_ok, col_note = True, " on the same column" if cols else ""
+        if not pred_ok:
+            continue
+        # a hit diverges before the insertion
+        if c["name"] in ("find", "position"):
+            hit_edges = [e for ch in f.result_checks(bi) for e in ch["pass_edges"]]
+            miss_edges = [e for ch in f.result_checks(bi) for e in ch["fail_edges"]]
+        else:
+            hit_edges = [e for ch in f.bool_checks_of(bi) for e in ch["true_edges"]]
+            miss_edges = [e for ch in f.bool_checks_of(bi) for e in ch["false_edges"]]
+        div = bool(hit_edges) and not any(f.can_reach(e[1], [ibi]) or e[1] == ibi for e in hit_edges) and \
+            any(f.can_reach(e[1], [ibi]) or e[1] == ibi for e in miss_edges)
+        reach = f.must_cross([ibi], cut_blocks=[bi])
+        if div and reach and bool(new_roots):
+            ctx.ob("R3", "insert-behind-overlap-loop", True,
+                   "every insertion lies behind a search (%s) over the set's elements%s for one that overlaps_with the new assertion; a hit diverges" % (c["name"], col_note),
+                   f, it["sp"]["at"])
+            return True
+    return False
 
 
 def r4_wiring(ctx):
